@@ -660,7 +660,10 @@ def apply_edit(m, e, other=None):
 def run_frame_case(case):
     m = build(case)
     enter_context(case, m)
-    c = do_copy(case["how"], m)
+    try:
+        c = do_copy(case["how"], m)
+    except Exception as ex:  # noqa  -- a copy operation that raises on a model the public API built is a violation
+        return [{"step": -1, "edit": ["copy:" + case["how"]], "diff": ["raised %s: %s" % (type(ex).__name__, ex)]}], {}
     edited, other = (c, m) if case["side"] == "copy" else (m, c)
     base = observe(other)
     stats, fails = {}, []
